@@ -47,6 +47,18 @@ CHECKS.update({
                 design="4/C08, 2.7", note=EEMS_NOTE + " z-score commands only on data with rational standard deviation; NormalizeZScore default thresholds excluded (docs and code disagree)."),
 })
 
+CHECKS.update({
+    "C20": dict(engine="params", technique="TLC: decision table MPParamsTable.Clean with Idempotent/Typed/ItemWise/ErrIsParameterError invariants over every cell; TLC validation (MPParamsTrace.tla) of clean() observations on the real Parameter classes",
+                text="TLC enumerates every (parameter configuration x raw value kind x environment) cell of the cleaning table (about 30 000 cells) and checks the laws on the table; every cell is executed on the real classes with 2-3 concrete representatives (clean, clean again, clean of the cleaned value, deep comparison of raw argument and program, execution counter) and TLC validates each observation against the table: Type, Value, ErrorClass, ForeignException, NotRepeatable, NotIdempotent, Mutated.",
+                design="4/C20, 2.4", note=BASE_NOTE + " Cells the documentation leaves open are 'unspecified': any documented type or parameter error is accepted there, never another exception."),
+    "C12": dict(engine="validate", technique="TLC: MPValidate.tla pipeline (load / pre-pass / execute) over declarations generated from the live classes, invariants AcceptIffWellFormed, ErrorIsAFault, RejectBeforeEffects; replay of every program + TLC trace validation (MPValidateTrace.tla) against the declarative Faults(prog)",
+                text="Declarations are exported from the live command classes; TLC builds a valid model around every declared command, injects every single fault at two positions (about 4 900 programs for the CSV libraries; thorough adds NetCDF), explores the pipeline step by step and checks acceptance iff well-formed, the reported error being one of the program's faults, and rejection before any execution or file; every program is rendered, run with the execute tracer and a directory snapshot, compared with the model's terminal state, and its trace validated by TLC.",
+                design="4/C12, 2.3", note=BASE_NOTE + " Well-formedness is relative to the live declarations. Execute-time semantic errors are not ill-formedness."),
+    "C13": dict(engine="validate", technique="TLC: EscapeTyped on MPValidate over the full kind-confusion matrix + TLC validation of the recorded outcome classes; MPCli.tla (incl. liveness) + MPCliTrace.tla validation of command-line runs",
+                text="Every declared command x parameter x every raw value kind is built by MPValidate(AllKinds) and run through from_source+run; TLC validates the class of whatever escapes. Run-time scenarios for each library error class and CSV content faults, plus a sample of the matrix, are also run through the command-line tool and validated against MPCliTrace (non-zero exit, banner and problem/solution text on stderr, no traceback).",
+                design="4/C13, 2.3, 2.9", note=BASE_NOTE + " The CLI is invoked in-process through its click entry point."),
+})
+
 NOT_YET = "check not built yet (build in progress; see DESIGN.md section 4b build order)"
 
 
@@ -83,6 +95,10 @@ def main():
              "kind_free_text": "TLC (spec/MPRun.tla, spec/MPRunAbsTrace.tla) + replay/tracing harness"},
             {"name": "eems", "path": "harness/eems.py", "serves_properties": ["C03", "C04", "C05", "C06", "C07", "C08"],
              "kind_free_text": "TLC (spec/Rat.tla, EEMSOps.tla, EEMSCases.tla, EEMSOpsTrace.tla) + packed execution of the real commands"},
+            {"name": "params", "path": "harness/paramcheck.py", "serves_properties": ["C20"],
+             "kind_free_text": "TLC (spec/MPParamsTable.tla, MPParams.tla, MPParamsTrace.tla) + clean() driver"},
+            {"name": "validate", "path": "harness/validate.py", "serves_properties": ["C12", "C13"],
+             "kind_free_text": "TLC (spec/MPValidateDefs.tla, MPValidate.tla, MPValidateTrace.tla, MPCli.tla, MPCliTrace.tla; MC_Decl generated by harness/decl.py) + renderer/runner"},
         ],
         "checks": checks,
         "notes": "Model-based verification with explicit TLA+ specifications (spec/*.tla) decided by TLC and bound to the code by replay and trace validation; see DESIGN.md. known_findings.json lists genuine defects (open) and repaired ones (fixed).",
